@@ -467,6 +467,10 @@ def correspond(ctx):
             if str(hash(tuple(t))) != r.strip():
                 ctx.cov['disagreements_checked'] += 1
                 ctx.broke('correspondence', 'Py.Hash', f'hash({tuple(t)}) = {hash(tuple(t))}, model {r}')
+    if ctx.broken:
+        # a relational stream may already hold a failing input (e.g. a reaction graph); still start the molecule-level
+        # search from the disagreeing cases so that the smallest plain-molecule input is reported as well
+        search(ctx)
 
 
 def smiles_dict_stream(ctx, groups):
@@ -735,6 +739,9 @@ def _safe_renumber(rng, mol):
 def search(ctx):
     """Property-level oracle on the real code, starting at the disagreeing cases, then their neighbourhood, then a sweep."""
     import time
+    if ctx.__dict__.get('c17_search_done'):
+        return
+    ctx.c17_search_done = True
     rng = ctx.rng
     budget = 60 if ctx.quick else 500
     t0 = time.time()
